@@ -45,6 +45,11 @@ CORPUS = [
     "tok none 1,1,1,0,1,0,1,1,0,0,1 1 h0:1:1 st1;wl0.0;wn0.0.1;wb0.1;jt0|wb0.0;yd;wy0.0",
     "tok none 0,1,0,1,1,0,0,1,1,1,0,1,0 1 h0:2:3 sa1;sa2;sa3;ws0.0.1;ws0.1.2;wx0.0;wx0.1;aw0;aw1;aw2|wc0.0;wc0.0;wc0.0|wf0.1.2;wc0.1|wu0.2;wh0.2;wc0.2;wc0.2;wc0.2",
     "tok none 1,0,0,1,0,1,1,0,1 1 h0:1:1 sa1;wc0.0;wc0.0;wc0.0;aw0|ws0.0.1;yd;ws0.0.2;wx0.0",
+    # a channel without receivers is re-opened by subscribe while another handle of the sender is inside send_replace:
+    # the subscriber looks at the old value, then must be told of the new one (seeded change C19-4)
+    "tok none 0,0,0,0,0,0,3,1,1,1,1,0,0,0,2,0,3,1,1 248921663 h0:2:1 st1;sa2;wy0.0;jt0;aw0|wp0.0.2;wp0.0.3|wn0.1.1;wu0.1;wh0.1;wc0.1;wx0.1",
+    "tok none 0,0,0,1,1,0,1,0,1,1,0,0,1,0,1 7 h0:2:1 wy0.0;st1;st2;jt0;jt1|wp0.0.5|wn0.1.1;wu0.1;wc0.1;wu0.1",
+    "tok none 0,0,0,1,0,1,1,0,1,1,0,0,1,0,1 7 h0:2:1 wy0.0;st1;sa2;jt0;aw0|wp0.0.5|wn0.1.1;wf0.1.5",
 ]
 DFS_CASES = [
     ("tokdfs 0 100 n sa1;nf0;an0;aw0|no0", "C19-F4"),
@@ -81,9 +86,9 @@ def run(tier):
     ctx.proof_gate(PROPS)
     if not (ctx.build_model() and ctx.build_harness()):
         return ctx.finish()
-    n = 3300 if tier == "quick" else 48000
+    n = 3600 if tier == "quick" else 52000
     cases = list(CORPUS)
-    focuses = ["mix", "mix", "mpsc", "mpsc", "sem", "lock", "notify", "notify", "oneshot", "watch", "watch"]
+    focuses = ["mix", "mix", "mpsc", "mpsc", "sem", "lock", "notify", "notify", "oneshot", "watch", "watch", "watchre"]
     for i in range(n):
         wild = (i % 6 == 0)
         fo = focuses[i % len(focuses)]
